@@ -9,7 +9,7 @@ from vf.core import Result, through_code_under_test
 
 ID = "C09"
 LEVEL = "exploration"
-BUDGET = {"quick": 1600, "thorough": 32000}
+BUDGET = {"quick": 4800, "thorough": 48000}
 MIN_NONTRIVIAL = {"quick": 100, "thorough": 1000}
 RULE = (
     "Hypothesis draws a history (3-30 operations) over a pool of up to 6 states and two system objects sharing them "
@@ -114,7 +114,7 @@ def run_case(case) -> Result:
 
     for op in case["ops"]:
         kind = op["op"]
-        i = op["i"] % len(pool)
+        i = (len(pool) - 1) if op["i"] == -1 else op["i"] % len(pool)   # -1 = the most recently added state
         state = pool[i]
         if kind == "call":
             ms = hist.methods_of(specs[op["sys"]])
